@@ -146,7 +146,7 @@ def graph_case(draw):
 
 
 HUBS = ("base", "ratios", "root_height", "shifts", "scale.unres", "aff.loc")
-OPS = ["assign", "assign", "assign", "view", "cat", "transformed", "sample", "rsample", "operator", "inplace", "requires_grad", "eval", "anon", "nudge", "nudge", "bad_value"]
+OPS = ["assign", "assign", "assign", "view", "cat", "transformed", "sample", "rsample", "operator", "inplace", "requires_grad", "eval", "anon", "nudge", "nudge", "bad_value", "bad_shape"]
 
 # G6: models whose hyper-parameters are written as constants: each becomes a Parameter without an id held by the model
 # alone.  (model id, position among the model's anonymous parameters, path of the constant in the specification, domain)
@@ -220,10 +220,14 @@ def build_spec(c):
             {"id": "aff", "type": "TransformedParameter", "transform": "torch.distributions.AffineTransform", "parameters": {"loc": tt.P("aff.loc", [0.4]), "scale": 2.0},
              "x": tt.P("aff.x", [0.2, -0.3])},
             {"id": "ncat", "type": "Distribution", "distribution": "torch.distributions.Normal", "x": [tt.P("ca", [0.5]), "aff"], "parameters": {"loc": tt.P("lcat", [0.1, -0.2, 0.3]), "scale": tt.P("scat", [1.7, 0.9, 1.2])}},
-            {"id": "joint", "type": "JointDistributionModel", "distributions": ["n1", "n2", "n3", "nbase", "gam", "ln", "scale", "tb", "tv", "ncat"]},
+            # a concatenation of a plain parameter and a view of the shared one-dimensional base: an assignment of a
+            # batch through it fails part-way (the view cannot take it)
+            {"id": "nview", "type": "Distribution", "distribution": "torch.distributions.Normal", "x": [tt.P("cb", [0.2]), "v1"],
+             "parameters": {"loc": tt.P("lview", [0.0, 0.1, -0.1, 0.2]), "scale": tt.P("sview", [1.1, 0.8, 1.3, 0.9])}},
+            {"id": "joint", "type": "JointDistributionModel", "distributions": ["n1", "n2", "n3", "nbase", "gam", "ln", "scale", "tb", "tv", "ncat", "nview"]},
         ]
         dom = {"base": "real", "loc": "real", "scale.unres": "real", "s2": "pos", "a": "pos", "b": "pos", "conc": "pos", "s3": "pos", "lb": "real", "sb": "pos", "l3": "real", "s3b": "pos",
-               "aff.loc": "real", "aff.x": "real", "ca": "real", "lcat": "real", "scat": "pos"}
+               "aff.loc": "real", "aff.x": "real", "ca": "real", "lcat": "real", "scat": "pos", "cb": "real", "lview": "real", "sview": "pos"}
         return spec, dom
     like = c["like"]
     spec = phylo.like_spec(like)
@@ -478,6 +482,9 @@ def body(c):
         elif k in ("sample", "rsample") and dists:
             target = dists[op["t"] % len(dists)]
             dd = dic[target]
+            members = list(dd.x._parameter_container.params()) if isinstance(dd.x, CatParameter) else [dd.x]
+            if any(isinstance(q, ViewParameter) and q.parameter.tensor.requires_grad for q in members):
+                continue  # a draw is written into the view in place: torch forbids that on a leaf that requires grad
             if any(q.requires_grad for q in dd.x.parameters()) and k == "sample":
                 pass
 
@@ -541,6 +548,25 @@ def body(c):
                     p.fire_parameter_changed()
 
             _, exc = guarded(f)
+        elif k == "bad_shape" and cats:
+            # an assignment through a concatenation that cannot succeed (wrong length / a batch of draws into a
+            # view of a one-dimensional base): whether it raises or not, later valid updates must still be observed
+            target = cats[op["t"] % len(cats)]
+            cat = dic[target].x if target != "tree" else tree._internal_heights
+            shp = tuple(cat.tensor.shape)
+            bad = new_values("pos", (4,) + shp if op["flag"] else (shp[0] + 1,) + shp[1:], op["u"], None, dic)
+            before = {l: dic[l].tensor.detach().clone() for l in leaves_of(spec)}
+
+            def f():
+                cat.tensor = bad
+
+            _, e_bad = guarded(f)
+            if e_bad is None or any(tuple(dic[l].tensor.shape) != tuple(before[l].shape) for l in before):
+                # accepted (or partly applied): put the previous values back piece by piece
+                for l, old in before.items():
+                    if tuple(dic[l].tensor.shape) != tuple(old.shape) or not torch.equal(dic[l].tensor.detach(), old):
+                        dic[l].tensor = old
+            k = "bad_shape_" + ("raised" if e_bad is not None else "accepted")
         elif k == "bad_value" and leaves:
             # a value outside the support: where the model rejects it (the fresh copy raises), the live object must
             # raise as well, on this and on the next request - an evaluation that failed must not leave a cached answer
